@@ -494,7 +494,7 @@ theorem mergeTail_spec : ∀ (ts : List Loc) (l0 : Loc),
     l0.stop ≤ (mergeTail l0 ts).1.stop ∧
     ((mergeTail l0 ts).1.stop = l0.stop ∨ ∃ t ∈ ts, t.stop = (mergeTail l0 ts).1.stop) ∧
     (∀ x, l0.start ≤ x → x < (mergeTail l0 ts).1.stop →
-        (x < l0.stop ∨ ∃ t ∈ ts, t.ap = l0.ap ∧ t.start ≤ x ∧ x < t.stop)) ∧
+        (x < l0.stop ∨ ∃ t ∈ ts, t.ap = l0.ap ∧ t.start ≤ x ∧ x < t.stop ∧ t.stop ≤ (mergeTail l0 ts).1.stop)) ∧
     (∀ t, some t ∈ (mergeTail l0 ts).2 → t ∈ ts) ∧
     (mergeTail l0 ts).2.length = ts.length ∧
     (∀ (i : Nat) (t : Loc), ts[i]? = some t → (mergeTail l0 ts).2[i]? = some none →
@@ -527,9 +527,10 @@ theorem mergeTail_spec : ∀ (ts : List Loc) (l0 : Loc),
         rcases h5 x hx1 hx2 with hlt | ⟨t, ht, hap, hs⟩
         · by_cases hx : x < l0.stop
           · exact Or.inl hx
-          · refine Or.inr ⟨tl, List.mem_cons_self, hov.1.symm, ?_, ?_⟩
+          · refine Or.inr ⟨tl, List.mem_cons_self, hov.1.symm, ?_, ?_, ?_⟩
             · rcases hov.2 with ⟨ha, hb⟩ | ⟨ha, hb⟩ <;> omega
             · rcases hS3 with hS3 | hS3 <;> omega
+            · omega
         · exact Or.inr ⟨t, List.mem_cons_of_mem _ ht, hap, hs⟩
       · intro t ht
         simp only [List.mem_cons] at ht
@@ -588,13 +589,25 @@ theorem merge_entries (ls : List Loc) (m : Loc) (hm : some m ∈ mergeOverlappin
         · exact ⟨t, List.mem_cons_of_mem _ ht, hs⟩
       · intro x hx1 hx2
         rw [h1] at hx1
-        rcases h5 x hx1 hx2 with hlt | ⟨t, ht, hap, hs⟩
+        rcases h5 x hx1 hx2 with hlt | ⟨t, ht, hap, hs1, hs2, _⟩
         · exact ⟨l0, List.mem_cons_self, h2.symm, hx1, hlt⟩
-        · exact ⟨t, List.mem_cons_of_mem _ ht, by rw [hap, h2], hs⟩
+        · exact ⟨t, List.mem_cons_of_mem _ ht, by rw [hap, h2], hs1, hs2⟩
     · have hmem := h6 m hm
       refine ⟨⟨m, List.mem_cons_of_mem _ hmem, rfl, rfl⟩, ⟨m, List.mem_cons_of_mem _ hmem, rfl⟩, ?_⟩
       intro x hx1 hx2
       exact ⟨m, List.mem_cons_of_mem _ hmem, rfl, hx1, hx2⟩
+
+/-- **With locations ordered by start** (what `OrderTermLocations` hands over), a merged span is a
+union of whole locations: every byte of it lies in an original location that lies inside the span.
+This is the form the end-to-end predicate `fragmentOK` asks of every marked span. -/
+theorem merge_span_union (l0 : Loc) (ts : List Loc) (hs : ∀ t ∈ ts, l0.start ≤ t.start) (x : Int)
+    (h1 : l0.start ≤ x) (h2 : x < (mergeTail l0 ts).1.stop) :
+    ∃ t ∈ l0 :: ts, t.ap = l0.ap ∧ t.start ≤ x ∧ x < t.stop ∧
+      (mergeTail l0 ts).1.start ≤ t.start ∧ t.stop ≤ (mergeTail l0 ts).1.stop := by
+  obtain ⟨e1, _, e3, _, e5, _, _, _⟩ := mergeTail_spec ts l0
+  rcases e5 x h1 h2 with hlt | ⟨t, ht, hap, ha, hb, hc⟩
+  · exact ⟨l0, List.mem_cons_self, rfl, h1, hlt, by omega, e3⟩
+  · exact ⟨t, List.mem_cons_of_mem _ ht, hap, ha, hb, by have := hs t ht; omega, hc⟩
 
 /-- **Merging never shortens**: a location that was merged away (its slot holds nil) lies, end
 included, inside what the first entry has become (the defect repaired by 64c2772). -/
